@@ -37,20 +37,14 @@ class _I:
         return self.ref
 
 
-class _BCL:
-    def __init__(self, ins):
-        self.ins = ins
-
-    def get_instructions(self):
-        return iter(self.ins)
-
-
-class _CodeL:
-    def __init__(self, ins):
-        self.bc = _BCL(ins)
-
-    def get_bc(self):
-        return self.bc
+def _code_of(dex, get_instructions):
+    """a DalvikCode whose DCode delivers the given instructions: the real classes (so helper methods a refactoring adds to them
+    exist), not initialised from a file; only get_instructions is the contract's"""
+    bc = object.__new__(dex.DCode)
+    bc.get_instructions = get_instructions
+    dc = object.__new__(dex.DalvikCode)
+    dc.code = bc
+    return dc
 
 
 def _three(U):
@@ -62,7 +56,7 @@ def instruction_offsets(U):
     dex = U.mod(DEX)
     ins = _three(U)
     em = object.__new__(dex.EncodedMethod)
-    em.code = _CodeL(ins)
+    em.code = _code_of(dex, lambda: iter(ins))
     em.get_code = lambda: em.code
     o = U.call(lambda: list(em.get_instructions_idx()))
     U.ensures("does not raise", o.ok, exc=repr(o.exc))
@@ -345,10 +339,7 @@ def instruction_offsets_unbounded(U):
     world = _SeqWorld(U)
     seq = world.seq()
     em = object.__new__(dex.EncodedMethod)
-    bc = _BCL(None)
-    bc.get_instructions = lambda: seq if U.mode == "sym" else iter(seq)
-    em.code = _CodeL(None)
-    em.code.bc = bc
+    em.code = _code_of(dex, lambda: seq if U.mode == "sym" else iter(seq))
     em.get_code = lambda: em.code
     IDX_LOOP.G = {"world": world, "U": U}
     if U.mode == "sym":
